@@ -122,6 +122,7 @@ func (w *chunkWriter) Write(p []byte) (int, error) {
 func runC18(rc *RC) {
 	g := newCityGen(rc)
 	g.trickyValues = true
+	g.mixedCollectionKeys = true
 	// Basic bases only: the compact world answers FindReferences by a
 	// different, one-level rule (it does not report the areas over a path),
 	// so an overlay over it cannot find the features it must copy up when a
